@@ -53,6 +53,20 @@ static Packet ifPacket(int d, int i, int v)
     k.setTimestamp(1000 + d * 100 + i * 10 + v);
     return k;
 }
+// a status message of ANOTHER kind (configuration status 0x0303 / vendor status 0x03FF) whose first four payload bytes
+// read as an interface id that is in use: it must change nothing
+static Packet otherStatusPacket(int d, int kind)
+{
+    Packet k;
+    uint8_t b[44];
+    memset(b, 0, sizeof b);
+    b[0] = (uint8_t) (kIf[0] >> 24); b[1] = (uint8_t) (kIf[0] >> 16); b[2] = (uint8_t) (kIf[0] >> 8); b[3] = (uint8_t) kIf[0];
+    b[29] = 1;
+    k.setPayload(Payload(PayloadType(kind ? PayloadType::vendorStatMsg : PayloadType::confStatMsg), b, sizeof b));
+    k.setDeviceId(kDev[d]);
+    k.setTimestamp(7000 + d * 2 + kind);
+    return k;
+}
 static Packet dataPacket(int d)
 {
     Packet k;
@@ -81,6 +95,8 @@ static std::vector<Op> alphabet()
     for (int d = 0; d < 3; ++d)
         a.push_back({'D', d, 0, 0});
     for (int d = 0; d < 3; ++d)
+        a.push_back({'O', d, 0, d % 2});   // other status kinds: conf status for two devices, vendor status for one
+    for (int d = 0; d < 3; ++d)
         a.push_back({'R', d, 0, 0});
     for (int d = 0; d < 3; ++d)
         for (int i = 0; i < 2; ++i)
@@ -96,6 +112,7 @@ static std::string opName(const Op& o)
         case 'C': return fmt("cm(d%d,%c)", kDev[o.d], 'a' + o.v);
         case 'I': return fmt("if(d%d,i%u,%c)", kDev[o.d], kIf[o.i], 'a' + o.v);
         case 'D': return fmt("data(d%d)", kDev[o.d]);
+        case 'O': return fmt("%s-status(d%d)", o.v ? "vendor" : "conf", kDev[o.d]);
         case 'R': return fmt("removeDevice(d%d)", kDev[o.d]);
         case 'r': return fmt("removeInterface(d%d,i%u)", kDev[o.d], kIf[o.i]);
         default: return "clear";
@@ -149,6 +166,7 @@ static void apply(Sys& s, const Op& o)
         case 'C': s.s.update(P.cm[o.d][o.v]); s.m.updateCm(kDev[o.d], 100 + o.d * 10 + o.v); break;
         case 'I': s.s.update(P.ifp[o.d][o.i][o.v]); s.m.updateIf(kDev[o.d], kIf[o.i], 1000 + o.d * 100 + o.i * 10 + o.v); break;
         case 'D': s.s.update(P.data[o.d]); break;
+        case 'O': s.s.update(otherStatusPacket(o.d, o.v)); break;
         case 'R': s.s.removeDeviceById(kDev[o.d]); s.m.removeDevice(kDev[o.d]); break;
         case 'r':
         {
@@ -423,7 +441,7 @@ int main(int argc, char** argv)
     run.assumptions = {"3 device ids x 2 interface ids x 2 message variants (variants differ in timestamp, stream id and payload bytes so that 'latest' is observable)",
                        "vector order of the entries is not constrained (the property does not), only which entries exist and what they hold",
                        "VERIF_SEED is ignored: nothing is sampled"};
-    run.rule = fmt("%zu-operation alphabet {update(cm status) x6, update(interface status) x12, update(data packet) x3, removeDeviceById x3, removeInterfaceById x6, clear}: "
+    run.rule = fmt("%zu-operation alphabet {update(cm status) x6, update(interface status) x12, update(data packet) x3, update(status message of another kind) x3, removeDeviceById x3, removeInterfaceById x6, clear}: "
                    "unmerged tree of copied real Status objects (every prefix judged) + BFS merged on the full ordered observable state; after every operation the object is "
                    "compared with a latest-message map through counts, lookups by id and all getters/bytes of every stored packet; distinct = distinct observable states",
                    kOps.size());
